@@ -57,12 +57,21 @@ def gen_dataset(rng, raw=False):
     vmax = 40 if raw else 4
     cells = [{'vec': [rng.randint(0, vmax) for _ in range(NG)], 'lab': lab[i], 'fil': rng.randint(1, NF)}
              for i in range(n)]
+    if raw:
+        for c in cells:
+            if rng.random() < 0.4:
+                c['vec'][rng.randrange(NG)] = rng.randint(2000, 6000)      # a highly expressed gene
     par = [rng.randint(1, 2) for _ in range(NCl)]
     return {'NF': NF, 'R': rng.randint(1, 6), 'P': rng.randint(1, 4), 'NCl': NCl, 'NG': NG, 'cells': cells,
             'par': par, 'raw': raw, 'enc': [rng.choice(['dense', 'csr', 'csc']) for _ in range(NF)],
             # three-level variant: class K -> super class par2[K-1]; class and super-class names are chosen
             # so that the order in which they are met walking the tree is not their alphabetical order
-            'par2': [rng.randint(1, 2), rng.randint(1, 2)] if rng.random() < 0.5 else None}
+            'par2': [rng.randint(1, 2), rng.randint(1, 2)] if rng.random() < 0.5 else None,
+            # stage the inputs in scratch first (copy_data_over); the files then share one base name in
+            # different directories
+            'copy_over': rng.random() < 0.3,
+            # numeric type of the stored counts (raw input): 32-bit integers with counts in the thousands
+            'dtype': rng.choice(['float64', 'float32', 'int32', 'uint32', 'int64']) if raw else 'float64'}
 
 
 def _write_files(ds, d, which=None, reverse=False):
@@ -73,12 +82,16 @@ def _write_files(ds, d, which=None, reverse=False):
             continue
         if reverse:
             idx = idx[::-1]
-        X = np.array([ds['cells'][i]['vec'] for i in idx], dtype=float).reshape((len(idx), ds['NG']))
+        X = np.array([ds['cells'][i]['vec'] for i in idx], dtype=ds.get('dtype', 'float64')).reshape((len(idx), ds['NG']))
         enc = ds['enc'][f - 1]
         M = sp.csr_matrix(X) if enc == 'csr' else sp.csc_matrix(X) if enc == 'csc' else X
         obs = pd.DataFrame(index=pd.Index([f'cell{i + 1}' for i in idx], name='cell_id'))
         var = pd.DataFrame(index=pd.Index([f'g{g + 1}' for g in range(ds['NG'])], name='gene'))
-        p = os.path.join(d, f'f{f}.h5ad')
+        if ds.get('copy_over'):
+            os.makedirs(os.path.join(d, f'set{f}'), exist_ok=True)
+            p = os.path.join(d, f'set{f}', 'expression.h5ad')
+        else:
+            p = os.path.join(d, f'f{f}.h5ad')
         anndata.AnnData(X=M, obs=obs, var=var).write_h5ad(p)
         paths.append(p)
     return paths
@@ -164,7 +177,7 @@ def _case(args):
             precompute_summary_stats_from_h5ad_list_and_tree(
                 data_path_list=paths, taxonomy_tree=TaxonomyTree(data=tree), output_path=out,
                 rows_at_a_time=ds['R'], normalization='raw' if ds['raw'] else 'log2CPM',
-                tmp_dir=os.path.join(d, 'scratch'), n_processors=ds['P'])
+                tmp_dir=os.path.join(d, 'scratch'), n_processors=ds['P'], copy_data_over=bool(ds.get('copy_over')))
             stats, tree_out = _read_stats(out, [(f'k{k}', k) for k in range(1, ds['NCl'] + 1)], genes)
             tree_out.pop('metadata', None)
             if tree_out != tree:
@@ -231,7 +244,7 @@ def _case(args):
                                        'n1': y['n'], 'sum1': int(y['sum']), 'n2': z['n'], 'sum2': int(z['sum'])})
         evs = [e for v in build.read_traces(d).values() for e in v if e['ev'] == 'WorkSplit']
         split = []
-        if evs:
+        if evs and not ds.get('copy_over'):      # staged copies carry scratch names: the split is not projected
             for load in evs[0]['work_load']:
                 split.append([[int(c[0][1:].split('.')[0]), c[1], c[2]] for c in load])
         left = [x for x in os.listdir(os.path.join(d, 'scratch'))]
@@ -249,8 +262,10 @@ def _case(args):
                 want = (len(mem), vals.sum(), (vals ** 2).sum(), int((vals > 0).sum()), int((vals > 1).sum()),
                         int((vals > 1 - 1e-6).sum()))
                 got = (s['n'], s['sum'], s['sumsq'], s['gt0'], s['gt1'], s['ge1'])
-                if got[0] != want[0] or got[3:] != want[3:] or abs(got[1] - want[1]) > 1e-9 * max(1, abs(want[1])) \
-                        or abs(got[2] - want[2]) > 1e-9 * max(1, abs(want[2])):
+                # "sums to rounding": a matrix stored in single precision is normalised in single precision
+                tol = 1e-5 if ds.get('dtype') == 'float32' else 1e-9
+                if got[0] != want[0] or got[3:] != want[3:] or abs(got[1] - want[1]) > tol * max(1, abs(want[1])) \
+                        or abs(got[2] - want[2]) > tol * max(1, abs(want[2])):
                     issues.append((911, f'cluster {s["id"]} gene {s["g"]}: {got} vs {want}'))
             rec = {'NF': ds['NF'], 'R': ds['R'], 'P': ds['P'], 'NCl': ds['NCl'], 'NG': ds['NG'],
                    'cells': ds['cells'], 'split': split, 'stats': [], 'coarse': [], 'par': ds['par'], 'merged': [],
